@@ -607,6 +607,12 @@ def _sorted_source(ctx, f: Func, value: ast.AST, fl: IndexFields, stmt: ast.stmt
                                 c = c.elts[1]
                             if isinstance(c, ast.Name) and n.args and norm(n.args[0]) == c.id:
                                 found = True
+                    if not found and isinstance(it, ast.Call) and isinstance(it.func, ast.Name) and it.func.id == "sorted" and it.args \
+                            and n.args and not any(k_.arg == "reverse" for k_ in it.keywords):
+                        # loop over sorted(buffer, key=...), appending the key component of each entry
+                        key_ = next((k_.value for k_ in it.keywords if k_.arg == "key"), None)
+                        if _key_matches(key_, n.args[0], loop.target):
+                            found = True
                     if not found and isinstance(it, ast.Name) and n.args and isinstance(n.args[0], ast.Name):
                         # loop over a locally sorted buffer, appending one component of each entry
                         okb, whyb = _buffer_sorted_by(ctx, f, it.id, n.args[0], loop.target, loop)
@@ -1112,21 +1118,60 @@ def renumbering_is_total(ctx):
                     ok_elt = True
             if isinstance(e, ast.Call) and norm(e) == f"{u}.get({tv}, {tv})":
                 ok_elt = True
+            # unpacked tuple entries: (new-or-same(pos), value) for pos, value in ...
+            if isinstance(gen.target, ast.Tuple) and isinstance(e, ast.Tuple) and len(gen.target.elts) == len(e.elts) == 2 \
+                    and all(isinstance(x, ast.Name) for x in gen.target.elts):
+                a_, b_ = (x.id for x in gen.target.elts)
+                if norm(e.elts[1]) == b_ and norm(e.elts[0]) in (f"{u}.get({a_}, {a_})", f"{u}[{a_}] if {a_} in {u} else {a_}"):
+                    comp0 = _tuple_position_component(ctx, fl)
+                    if any(k_ == 0 for k_ in comp0.values()):
+                        ok_elt = True
             if not ok_elt:
                 bad.append(f"element `{norm(e, 50)}` is not `new[i] if i in new else i`")
             # iterated list must be the container's own current content
             src = gen.iter
             if isinstance(src, ast.Name):
-                lp = None
-                for a in ancestors(n):
-                    if isinstance(a, ast.For) and src.id in {x.id for x in ast.walk(a.target) if isinstance(x, ast.Name)}:
-                        lp = a
-                if lp is None:
-                    bad.append(f"`{src.id}` is not bound by an enclosing loop over the container")
-            elif not is_self_attr(src):
+                if src.id not in _position_list_vars(h, fl):
+                    bad.append(f"iterates `{src.id}`, which is not a position list of the container (the value component of "
+                               f"its `.items()`)")
+            elif not is_self_attr(src) and not (isinstance(src, ast.Subscript) and is_self_attr(src.value)):
                 bad.append(f"iterates `{norm(src, 40)}`")
         yield Ob("C06.R10", ["C06", "C02", "C10", "C01", "C07", "C03", "C08"], f"{h.qual} | total renumbering", not bad,
                  "; ".join(bad[:2]) if bad else f"{len(stores)} unconditional element-wise map(s)", h.loc())
+
+
+def _position_list_vars(h: Func, fl) -> Set[str]:
+    """Names that a loop of `h` binds to a *position list* of an inverted map: the value component of
+    `.items()` / the target of `.values()` over `self.<map>` or over such a value itself (nested maps), minus the
+    ones that are iterated again as mappings (inner dicts)."""
+    vals: Dict[str, List[ast.AST]] = {}
+    again: Set[str] = set()
+    for n in walk_local(h.node):
+        if isinstance(n, (ast.For, ast.comprehension)) and isinstance(n.iter, ast.Call) and isinstance(n.iter.func, ast.Attribute) \
+                and n.iter.func.attr in ("items", "values") and not n.iter.args:
+            root = n.iter.func.value
+            if isinstance(root, ast.Name):
+                again.add(root.id)
+            rooted = (is_self_attr(root) and root.attr in fl.maps) or isinstance(root, ast.Name) or (
+                isinstance(root, ast.Subscript) and is_self_attr(root.value) and root.value.attr in fl.maps)
+            if not rooted:
+                continue
+            t_ = n.target
+            if n.iter.func.attr == "items" and isinstance(t_, ast.Tuple) and len(t_.elts) == 2 and isinstance(t_.elts[1], ast.Name):
+                vals.setdefault(t_.elts[1].id, []).append(root)
+            elif n.iter.func.attr == "values" and isinstance(t_, ast.Name):
+                vals.setdefault(t_.id, []).append(root)
+    # keep only chains rooted at a map attribute
+    def rooted_at_map(name: str, seen=()) -> bool:
+        if name in seen:
+            return False
+        for r in vals.get(name, []):
+            if is_self_attr(r) or isinstance(r, ast.Subscript):
+                return True
+            if isinstance(r, ast.Name) and rooted_at_map(r.id, seen + (name,)):
+                return True
+        return False
+    return {v for v in vals if v not in again and rooted_at_map(v)}
 
 
 def _tuple_position_component(ctx, fl) -> Dict[str, int]:
@@ -1192,6 +1237,11 @@ def removal_filters_exactly(ctx):
                 if not isinstance(g.target, ast.Name):
                     continue
                 v = g.target.id
+                it_ok = (isinstance(g.iter, ast.Name) and g.iter.id in _position_list_vars(h, fl)) or (
+                    isinstance(g.iter, ast.Subscript) and is_self_attr(g.iter.value) and g.iter.value.attr in fl.position_bearing) \
+                    or (is_self_attr(g.iter) and g.iter.attr in fl.position_bearing)
+                if not it_ok:
+                    bad.append(f"`{norm(n, 60)}` filters `{norm(g.iter, 30)}`, which is not a position list of the container")
                 if norm(n.elt) != v:
                     bad.append(f"`{norm(n, 60)}` does not keep the surviving entries unchanged")
                 f_ = formula(ast.BoolOp(op=ast.And(), values=list(g.ifs))) if len(g.ifs) > 1 else formula(g.ifs[0])
@@ -1210,6 +1260,25 @@ def removal_filters_exactly(ctx):
                 continue
             n_filters += 1
             tested = {norm(c.left) for c in mem}
+            # which loop variable walks which container
+            var_of: Dict[str, str] = {}
+            if isinstance(lp.iter, ast.Call) and call_name(lp.iter) == "zip" and isinstance(lp.target, ast.Tuple) \
+                    and len(lp.target.elts) == len(lp.iter.args):
+                for tv_, ar_ in zip(lp.target.elts, lp.iter.args):
+                    if isinstance(tv_, ast.Name) and is_self_attr(ar_):
+                        var_of[tv_.id] = ar_.attr
+            if var_of:
+                for t_ in tested:
+                    if var_of.get(t_) not in fl.pos:
+                        bad.append(f"`{t_} not in {r_items}` tests the component of self.{var_of.get(t_, '?')}, not the storage position")
+                # each new list receives the component of the container it replaces
+                for a in apps:
+                    lst = a.func.value.id
+                    dest = [t0.attr for st_ in walk_local(h.node) if isinstance(st_, ast.Assign) and isinstance(st_.value, ast.Name)
+                            and st_.value.id == lst for t0 in st_.targets if is_self_attr(t0)]
+                    arg = a.args[0]
+                    if dest and isinstance(arg, ast.Name) and arg.id in var_of and var_of[arg.id] != dest[0]:
+                        bad.append(f"`{norm(a)}` puts the component of self.{var_of[arg.id]} into the list that becomes self.{dest[0]}")
             for a in apps:
                 cl = guard_clauses(guards(a, stop=lp))
                 oks = [t for t in tested if any(len(c) == 1 and next(iter(c)) == (f"in({t},{r_items})", False) for c in cl)]
